@@ -521,15 +521,19 @@ func init() {
 	})
 }
 
-func arpJobs() []Job {
+func arpJobs(tier ...string) []Job {
 	r := []string{"processed"}
 	c := cfg(64, 900)
 	jobs := []Job{
 		{Pkg: "handlers/arp_spoofer", Func: "VerifC13Process", Cfg: c, Reach: r},
 		{Pkg: "handlers/arp_spoofer", Func: "VerifC13HuntOps", Cfg: c, Reach: r},
 	}
+	afters := []int64{0, 1, 2}
+	if len(tier) > 0 && tier[0] == "thorough" {
+		afters = []int64{0, 1, 2, 3, 4, 5, 6}
+	}
 	for _, m := range []int64{0, 1} {
-		for _, a := range []int64{0, 1, 2} {
+		for _, a := range afters {
 			jobs = append(jobs, Job{Pkg: "handlers/arp_spoofer", Func: "VerifC13Loop", Args: []int64{m, a}, Cfg: c, Reach: r})
 		}
 	}
@@ -540,13 +544,13 @@ func init() {
 	register(&Prop{
 		ID:        "C13",
 		Technique: "bounded symbolic execution of the real ARP handler (real Session via NewSession with a recording connection): ProcessPacket from symbolic hunt lists / offer state on every valid ARP frame; StartHunt/StopHunt semantics; the spoof loop with StopHunt / Close delivered between iterations",
-		Jobs:      func(tier string) []Job { return arpJobs() },
+		Jobs:      func(tier string) []Job { return arpJobs(tier) },
 		Filter:    prefixFilter("C13:", true),
 		Bounds: func(tier string) map[string]string {
 			return map[string]string{
 				"ProcessPacket": "every 42-byte ARP frame accepted by the real Parse (all field values), hunt lists of 0..2 arbitrary (MAC, LAN IP) entries, an optional outstanding DHCP offer for an arbitrary MAC; symbolic host / router MAC",
 				"hunt ops":      "StartHunt / StopHunt / IsHunting with an arbitrary MAC (possibly already hunted) on hunt lists of 0..2 entries",
-				"spoof loop":    "one hunted host plus 0..1 other hunted hosts (arbitrary IPs, possibly equal); StopHunt or Close arrives after 0, 1 or 2 iterations (delivered from inside the connection's WriteTo, i.e. between two iterations); the ticker arm of select is always enabled",
+				"spoof loop":    "one hunted host plus 0..1 other hunted hosts (arbitrary IPs, possibly equal); StopHunt or Close arrives after 0, 1 or 2 (thorough: 0..6) iterations (delivered from inside the connection's WriteTo, i.e. between two iterations); the ticker arm of select is always enabled",
 			}
 		},
 		Assumptions: []string{
@@ -614,9 +618,13 @@ func icmp6Jobs(tier string) []Job {
 	c := Config{MaxLoop: 200, MaxWall: 900, Stubs: map[string]bool{"uf-checksum": true}}
 	r := []string{"processed"}
 	jobs := []Job{{Pkg: "handlers/icmp_spoofer", Func: "VerifC14HuntOps", Cfg: c, Reach: r}}
+	afters, nrs := []int64{0, 1, 2}, []int64{0, 1, 2}
+	if tier == "thorough" {
+		afters, nrs = []int64{0, 1, 2, 3, 4}, []int64{0, 1, 2, 3}
+	}
 	for _, m := range []int64{0, 1} {
-		for _, a := range []int64{0, 1, 2} {
-			for _, nr := range []int64{0, 1, 2} {
+		for _, a := range afters {
+			for _, nr := range nrs {
 				jobs = append(jobs, Job{Pkg: "handlers/icmp_spoofer", Func: "VerifC14Loop", Args: []int64{m, a, nr}, Cfg: c, Reach: r})
 			}
 		}
@@ -636,7 +644,7 @@ func init() {
 		Bounds: func(tier string) map[string]string {
 			return map[string]string{
 				"hunt ops":        "hunt lists of 0..3 arbitrary (MAC, link-local) entries; StartHunt with IPv4, arbitrary non-link-local IPv6, link-local and address-less targets for an arbitrary (possibly already hunted) MAC; StopHunt of any MAC incl. the middle element",
-				"spoof loop":      "one hunted host (+ 0..1 others), 0..2 learned routers with arbitrary link-local addresses; StopHunt or Close after 0, 1 or 2 iterations (delivered between iterations); every frame is checked (NA, override, target = learned router, target LLA = our MAC, hop limit 255, destination = the hunted MAC)",
+				"spoof loop":      "one hunted host (+ 0..1 others), 0..2 (thorough 0..3) learned routers with arbitrary link-local addresses; StopHunt or Close after 0, 1 or 2 (thorough 0..4) iterations (delivered between iterations); every frame is checked (NA, override, target = learned router, target LLA = our MAC, hop limit 255, destination = the hunted MAC)",
 				"router learning": "router advertisements through the real Parse with every header field symbolic and every subset of {prefix information, MTU, RDNSS with one server, source LLA, DNS search list with one single-label name of 1..7 letters (all padding lengths)} with all other option values symbolic: flags, preference, hop limit, lifetimes, timers, prefix, MTU, RDNSS and source LLA in the router table equal an independent decoder's reading",
 			}
 		},
